@@ -13,7 +13,7 @@
           ordered outputs-then-inputs;
       (e) forall c, expand (contract_einsum (merge (circuit_net c) |0..0>)) = column0 (cmat nw c).
     They are covered by the correspondence/oracle run only (checks/C05.py). *)
-From Qib Require Import Embed.CircProofs Embed.HeapProofs Embed.HeapObs Embed.IdentProofs Base.Inst.
+From Qib Require Import Embed.CircProofs Embed.CircCtrl Embed.HeapProofs Embed.HeapObs Embed.IdentProofs Base.Inst.
 From Run Require Import GenCirc.
 
 (** (a) the circuit matrix is the product of the embedded gate matrices in application order:
@@ -65,6 +65,22 @@ Proof.
   - intros H. split; [apply cmat_unitary; exact H|apply run_statevector_unit_norm; exact H].
 Qed.
 Print Assumptions C05_statevector_is_first_column.
+
+(** (b') circuits whose element list also holds control instructions (barrier, measurement, delay): both loops
+    skip them (the translator pins `if isinstance(g, ControlInstruction): continue` in as_matrix AND in the statevector
+    loop - the latter since the repair 34f716a), so both are the loops above on the gates alone and the statevector is
+    still column 0 of the matrix, for every element list *)
+Theorem C05_control_instructions_are_skipped_by_both_views :
+  forall (K : Scalar) (L : ScalarLaws K) nw (c : list (celem (K:=K))),
+    gen_as_matrix_left_mult = true /\ gen_statevector_loop = true /\
+    cmat_e nw c = cmat nw (gates_of c) /\
+    run_statevector_e nw c = run_statevector nw (gates_of c) /\
+    (forall r, length r = nw -> run_statevector_e nw c r = cmat_e nw c r (zeros nw)).
+Proof.
+  intros K L nw c. split; [reflexivity|]. split; [reflexivity|]. split; [apply cmat_e_gates|].
+  split; [apply run_statevector_e_gates|]. intros r H. apply run_statevector_e_column0. exact H.
+Qed.
+Print Assumptions C05_control_instructions_are_skipped_by_both_views.
 
 (** (c, converse) a single __copy__ that is shallow in a gate-valued field breaks capture by value:
     construct target t, construct g with field t, append g, mutate t *)
